@@ -41,6 +41,9 @@ ASSUMPTIONS = [
 TRUSTED = ["harness/translator/consts.py (ast extraction of the Gauss-Legendre tables, thresholds and literals; its output is committed and "
            "re-checked by Lean on every run)",
            "scipy.special.owens_t/ndtr, scipy.integrate.quad, scipy.stats.multivariate_normal as references of the [T] accuracy streams"]
+EXPLANATION = ("proof, partial: 'obligations' counts the Lean theorems of Props/C13.lean and the generated constant obligations of "
+               "Generated/KernelConsts.lean (coverage.proof_part); the accuracy/validity of the correlated Gaussian kernel is NOT among "
+               "them and is reported as test streams on the real code (coverage.test_part / coverage.tests)")
 TOL = 1e-12          # correspondence, absolute (DESIGN.md 6/C13)
 ACC = 1e-7           # accuracy demanded by the property
 SLACK = 1e-12        # rounding slack of the validity streams
@@ -914,7 +917,10 @@ MANIFEST = {
             "corner in either coordinate and 1 at or beyond the upper-right corner, non-negative mass on every rectangle, equal to the product "
             "of the two clamped marginals and to Lebesgue measure of (box ∩ lower-left quadrant)/area; the zero-covariance branch of the "
             "Gaussian kernel is the product Φ((x−μ0)/√σ00)·Φ((y−μ1)/√σ11) and, for every monotone Φ with values in [0,1], lies in [0,1], "
-            "is monotone in each argument and gives every rectangle the product of two non-negative differences; the algorithm's constants "
+            "is monotone in each argument, gives every rectangle the product of two non-negative differences, tends to 0/1 in the tails and — "
+            "with Φ the standard normal CDF — equals the mass N(μ0,σ00)⊗N(μ1,σ11) gives to the quadrant (the bivariate normal CDF with "
+            "diagonal covariance); the pre-fix code differs from the present one exactly by the leading term of Genz's expansion (witness at "
+            "r=0.95), and the far-tail repair is exact over ordered fields; the algorithm's constants "
             "(three Gauss–Legendre tables: weights sum to 1, nodes in (0,1) decreasing, all 2·lg moment conditions, Legendre roots, closed-form "
             "weights; thresholds 0.3/0.75/0.925 and the three −100 cut-offs; every numeric literal) are re-extracted from the source on "
             "every run and re-checked by Lean, so a changed digit or threshold breaks a proof obligation. NOT PROVED, only TESTED: that the "
